@@ -21,6 +21,7 @@ Inductive c15_case :=
 | C15Case
     (* configuration and response headers *)
     (disable : bool) (sel : selector) (resp_ae resp_ce ct : bytes)   (* response headers Accept-Encoding, Content-Encoding, Content-Type *)
+    (status : N) (location : bytes)                   (* response status, Location header *)
     (* oracle table *)
     (t_parse : ct_parse)                              (* mime.ParseMediaType(ct): charset parameter *)
     (t_lookup : bytes * option bytes)                 (* lowered label -> canonical name (Lookup, then ianaindex) *)
@@ -118,7 +119,7 @@ Definition kind_of (i : install bytes) : rkind :=
 
 Definition c15_check (c : c15_case) : bool :=
   match c with
-  | C15Case disable sel resp_ae resp_ce ct t_parse t_lookup t_first t_boms t_prescan t_stream t_partial takes
+  | C15Case disable sel resp_ae resp_ce ct status location t_parse t_lookup t_first t_boms t_prescan t_stream t_partial takes
             chunks eof_last fail pattern ncalls o_kind o_calls o_out =>
       let body := concat chunks in
       let ds := tbl_stream body t_stream in
@@ -126,7 +127,7 @@ Definition c15_check (c : c15_case) : bool :=
       let fe := find_encoding_m (tbl_lookup_name t_boms) (tbl_prescan body t_first t_prescan) in
       let tk := map (fun x => (N.to_nat (fst x), snd x)) takes in
       let pat := map N.to_nat pattern in
-      let i := decide (tbl_parse ct t_parse) (tbl_lookup t_lookup) disable sel resp_ce ct in
+      let i := decide_resp (tbl_parse ct t_parse) (tbl_lookup t_lookup) status location disable sel resp_ce ct in
       let b := open_body ds dp i chunks eof_last fail tk in
       let sizes := cycle_sizes (N.to_nat ncalls + 2) pat pat in
       let tr := run ds dp fe sizes b in
